@@ -205,6 +205,11 @@ func (r *Run) Finish(rule string, assumptions []string, floorDistinct int) int {
 	wall := time.Since(r.start).Seconds()
 	// replay files
 	var lines []string
+	if old, _ := filepath.Glob(filepath.Join(VerifRoot, "replays", fmt.Sprintf("%s-%d-*.json", r.ID, r.Seed))); len(old) > 0 {
+		for _, f := range old {
+			_ = os.Remove(f)
+		}
+	}
 	for i, v := range r.violations {
 		if i >= 20 {
 			break
